@@ -110,18 +110,19 @@ CLAIMED = {
         "machine in C03/C10; work inside sqlglot and the codecs is not bounded by this proof.",
    technique="Coq proof (fuel-exclusion lemmas by induction on fuel) + translator facts + vm_compute correspondence + watchdog/scaling probes"),
  "C01": dict(
-   text="Connection machine Model/Conn.v (lock-step validated against the real Connection at suspension-point granularity). Proved: "
-        "a refusal (unknown user, forbidden, provider/plugin failure, unparsable response) at the first verdict or after auth-switch / "
-        "more-data round trips finishes the connection with the session never initialised and nothing served, and for EVERY "
-        "continuation of the client the outcome is identical (finished state is absorbing: nothing called, nothing written); the same "
-        "for a refused or aborted COM_CHANGE_USER (only session.close follows). Tie: skeletons of authenticate/_start/"
-        "handle_change_user regenerated; random walks with scripted identity providers/plugins replayed on the model; oracle on the "
-        "implementation: no session call / non-ERR packet after a refused exchange.",
+   text="Connection machine Model/Conn.v (lock-step validated against the real Connection at suspension-point granularity). Proved "
+        "for EVERY event list by plan-aware invariants (Proofs/ConnInv2.v, C01Proofs.v): on a fresh connection, while no verdict is "
+        "Success - any round trips, refusals, failures, truncated / mis-sequenced replies, disconnects, socket failures, kills, early "
+        "payloads - the session receives nothing but the user lookup and the client nothing but greeting / auth requests / ERR "
+        "(c01_nothing_before_success); from ANY state waiting for a command (or dispatching a queued one) a COM_CHANGE_USER whose "
+        "exchange contains no Success verdict is never followed by a served call again (c01_change_user_without_success, "
+        "c01_queued_...). Also: refusals finish the connection for every continuation (finite prefix families). Tie: skeletons "
+        "regenerated; random walks and scripted exchanges with scripted providers / plugins replayed on the model; oracle on the "
+        "implementation: nothing but ERR / close after an exchange that ended in ERR.",
    design="6/C01",
-   note="Partial: the theorems quantify over all continuations but over an enumerated family of exchange prefixes (computed in Coq); the "
-        "invariant over arbitrary histories is carried by the lock-step runs. Plugins are arbitrary decision sequences (C02 decides "
-        "what the built-in plugins decide).",
-   technique="Coq proof (absorbing-state lemma + vm_compute over exchange prefixes) + translator facts + lock-step correspondence"),
+   note="The two general theorems are about the model; the model is tied to the code by the lock-step runs and body facts. "
+        "Plugins are arbitrary decision sequences (C02 decides what the built-in plugins decide). Fuel: see DESIGN 11.",
+   technique="Coq proof (plan-aware invariants lifted through throw / exec_op / end_plan / run / step, induction over event lists) + translator facts + lock-step correspondence"),
  "C03": dict(
    text="Proved: for every column count, row list and DEPRECATE_EOF setting the packets written by the handler plans of Model/Conn.v "
         "(text result set, binary result set, cursor open, prepare block, fetch, field list) are accepted by the protocol grammar "
